@@ -38,7 +38,7 @@ func init() {
 		MinNontrivial:  map[string]int{"quick": 20000, "thorough": 100000},
 		RequiredObs: []string{
 			"CoeffUint64:exact", "CoeffUint64:panic_allowed", "Coeff:exact", "Coeff:panic_allowed", "Coeffs:rows_checked",
-			"Unrank:exact", "Rank:exact", "Rank:panic_allowed", "colex:positions_checked", "Unrank:risky_range_calls", "thresholds:groups",
+			"Unrank:exact", "Rank:exact", "Rank:panic_allowed", "colex:positions_checked", "Unrank:risky_range_calls", "thresholds:groups", "Rank:boundary_cases_above_MaxInt",
 		},
 	})
 }
@@ -620,6 +620,41 @@ func run(c *engine.Ctx) {
 	// 8. Unrank around the C(l,k) boundaries on a ladder of l up to MaxInt
 	boundaryUnits(c, m)
 
+	// 8b. Rank around the int boundary: the combinations whose rank is MaxInt-3 .. MaxInt+3 and the
+	// last ones with the same largest element (every term may fit while the sum does not)
+	c.Unit("rank/boundary", func() {
+		for k := 1; k <= 40; k++ {
+			L := largestL(uint64(k), bigMaxI)
+			top := new(big.Int).Sub(bigcomb.Binomial(L+1, uint64(k)), big.NewInt(1)) // last rank with largest element L
+			var rs []*big.Int
+			for d := int64(-3); d <= 3; d++ {
+				rs = append(rs, new(big.Int).Add(bigMaxI, big.NewInt(d)))
+			}
+			rs = append(rs, top, new(big.Int).Sub(top, big.NewInt(1)), new(big.Int).Rsh(new(big.Int).Add(top, bigMaxI), 1))
+			for _, r := range rs {
+				if !r.IsUint64() {
+					continue
+				}
+				w := bigcomb.UnrankBig(r, k)
+				seq := make([]int, len(w))
+				ok := true
+				for i, v := range w {
+					if v > uint64(maxInt) {
+						ok = false
+					}
+					seq[i] = int(v)
+				}
+				if ok {
+					c.Obs("Rank:boundary_cases", 1)
+					if r.Cmp(bigMaxI) > 0 {
+						c.Obs("Rank:boundary_cases_above_MaxInt", 1)
+					}
+					m.rank(seq, false)
+				}
+			}
+		}
+	})
+
 	// 9. seeded ranks / sequences
 	seededUnrank(c, m)
 	seededRank(c, m)
@@ -719,8 +754,8 @@ func seededCoeff(c *engine.Ctx, m *mon) {
 					if rg.Bool(0.4) {
 						t = tI[k]
 					}
-					f := 0.5 + rg.Float()*1.5
-					if k <= 3 && rg.Bool(0.5) {
+					f := 0.4 + rg.Float()*0.8 // a panic costs a stack trace: two thirds stay below the threshold
+					if k <= 3 && rg.Bool(0.3) {
 						f = 0.9 + rg.Float()*15
 					}
 					ff := float64(t) * f
@@ -735,7 +770,7 @@ func seededCoeff(c *engine.Ctx, m *mon) {
 							n = t - uint64(rg.Intn(100))
 						}
 					}
-				case x < 75:
+				case x < 65:
 					n = rg.U64() >> uint(rg.Intn(64))
 				default:
 					n = uint64(rg.Intn(260))
